@@ -2,10 +2,13 @@ package connrig
 
 import (
 	crand "crypto/rand"
+	"crypto/sha256"
+	"encoding/json"
 	"fmt"
 	"io"
 	"os"
 	"runtime"
+	"strconv"
 	"strings"
 	"sync"
 	"testing"
@@ -19,7 +22,7 @@ import (
 
 func init() {
 	log.Root().SetHandler(log.DiscardHandler())
-	kernel.Register(&kernel.Rig{
+	rig := &kernel.Rig{
 		Property: "C18",
 		Name:     "connrig",
 		Level:    "exploration",
@@ -59,7 +62,12 @@ func init() {
 		MaxProcs:       2,
 		RunsPerProcess: 150,
 		RunTimeout:     120 * time.Second,
-	})
+	}
+	// determinism self-test: the kernel gives workers GOMAXPROCS = MaxProcs
+	if v, err := strconv.Atoi(os.Getenv("VERIF_C18_MAXPROCS")); err == nil && v > 0 {
+		rig.MaxProcs = v
+	}
+	kernel.Register(rig)
 }
 
 // runState is the per-run context shared by the scenarios.
@@ -75,10 +83,12 @@ type runState struct {
 	led   *ledger
 	links []*SimLink
 
-	stop   bool // a new violation was recorded: wind the run down
-	sample map[string]interface{}
-	start  time.Time
-	slept  time.Duration // planned virtual sleeps
+	traceOn bool
+	trace   []string
+	stop    bool // a new violation was recorded: wind the run down
+	sample  map[string]interface{}
+	start   time.Time
+	slept   time.Duration // planned virtual sleeps
 }
 
 // violate records a violation; in non-default frame modes the key says so.
@@ -91,6 +101,14 @@ func (r *runState) violate(class, key, format string, args ...interface{}) bool 
 		return true
 	}
 	return false
+}
+
+// finger folds parts into the run fingerprint (and into the debug trace).
+func (r *runState) finger(parts ...interface{}) {
+	r.c.Finger(parts...)
+	if r.traceOn {
+		r.trace = append(r.trace, fmt.Sprint(parts...))
+	}
 }
 
 // violateAnyMode is violate for findings that do not depend on the frame mode.
@@ -124,6 +142,8 @@ var _ io.Reader = (*tapeReader)(nil)
 // Run is one run of the rig.
 func Run(c *kernel.Ctx) {
 	r := &runState{c: c, tier: c.Tier, led: newLedger(), sample: map[string]interface{}{}}
+	fplog := os.Getenv("VERIF_C18_FPLOG")
+	r.traceOn = fplog != ""
 	// fork every stream up front: Fork touches a shared map
 	r.cfg = c.Tape.Fork("cfg")
 	r.work = c.Tape.Fork("work")
@@ -149,7 +169,7 @@ func Run(c *kernel.Ctx) {
 	}
 	r.sample["scenario"] = names[scenario]
 	r.sample["frame_mode"] = modeName(r.mode)
-	c.Finger("scenario", names[scenario], "mode", r.mode)
+	r.finger("scenario", names[scenario], "mode", r.mode)
 
 	oldRand := crand.Reader
 	crand.Reader = eph
@@ -185,6 +205,11 @@ func Run(c *kernel.Ctx) {
 				for _, l := range r.links {
 					l.CloseBoth()
 				}
+				// goroutines of the code under test that are in a timed sleep
+				// (flowrate limiter) need virtual time to notice the stop; time
+				// no longer advances once this root goroutine has returned
+				time.Sleep(3 * time.Second)
+				synctest.Wait()
 			}()
 			r.start = time.Now()
 			switch scenario {
@@ -227,6 +252,17 @@ func Run(c *kernel.Ctx) {
 	}
 	c.SimTime(r.slept)
 	c.Sample(r.sample)
+	if fplog != "" {
+		// determinism evidence: one line per run, appended per process
+		h := sha256.Sum256([]byte(strings.Join(r.trace, "\n")))
+		sj, _ := json.Marshal(r.sample)
+		sh := sha256.Sum256(sj)
+		f, err := os.OpenFile(fplog, os.O_CREATE|os.O_WRONLY|os.O_APPEND, 0644)
+		if err == nil {
+			fmt.Fprintf(f, "%d trace=%x sample=%x slept=%d failed=%v\n", c.Tape.Seed(), h[:8], sh[:8], r.slept, c.Failed())
+			f.Close()
+		}
+	}
 }
 
 func (r *runState) newLink(cap01, cap10 int) *SimLink {
